@@ -156,9 +156,11 @@ def run_case(sub, case):
 
 
 def fails_like(sub, case, kind):
-    from .main import safe_run
+    from .main import _safe_run
     try:
-        out, herr = safe_run(sub, case)
+        out, herr = _safe_run(sub, case, 5.0)      # a candidate that hangs is simply not taken
+    except CaseTimeout:
+        return False
     except Exception:
         return False
     if herr is not None or out is None:
